@@ -171,9 +171,11 @@ def run_worker_cases(ctx):
             n_prior = int(rng.integers(1, rows + 1))
             kw["n_prior_samples"] = n_prior
         elif mode == "idx":
-            idx_len = int(rng.integers(1, rows + 1))
-            # a shuffled selection of distinct rows (what randomize_prior_order hands over); every third one the identity
-            arr = np.arange(idx_len) if len(out) % 3 == 0 else rng.permutation(rows)[:idx_len]
+            idx_len = int(rng.integers(1, rows + 1)) if len(out) % 4 else rows + int(rng.integers(1, 16))
+            # a shuffled selection of distinct rows (what randomize_prior_order hands over); every third one the identity; every fourth
+            # one LONGER than the cache file has rows (a resample with repeats would be): the batches cover the supplied array, whatever
+            # the file holds
+            arr = np.arange(idx_len) if len(out) % 3 == 0 else rng.permutation(max(rows, idx_len))[:idx_len]
             kw["samples_idx"] = arr
         case = dict(family="rw", rows=rows, n_prior=n_prior, idx_len=idx_len, n_batches=nb, pool_size=psize)
         try:
